@@ -111,3 +111,65 @@ def run(ctx):
     ctx.extra["deserialize_types"] = sorted(sc)
     ctx.assumptions += ["serde_derive emits the accepted names as the FIELDS / VARIANTS constants of the generated deserialize function (serde 1.x behaviour)",
                         "flattened variants (gameState) have no FIELDS constant; their keys are those of the flattened struct"]
+
+
+def r5_move_list(ctx):
+    """the space-separated move string is split into all of its tokens, in order"""
+    rid = "C19.R5"
+    ctx.rule(rid, "from_space_sv splits the move string on ' ' and collects every token in order: no iterator adaptor that drops, truncates or reorders tokens (a filter is accepted only when its predicate is `!is_empty()`); the empty-string case yields the empty list; the `moves` field is decoded through it", floor=3)
+    prog = ctx.prog
+    ks = [k for k in prog.fns if k.endswith("::from_space_sv")]
+    if len(ks) != 1:
+        ctx.lost(rid, "bot_game_state_response::from_space_sv")
+        return
+    f = prog.fns[ks[0]]
+    from ..expr import Exprs
+    ex = Exprs(f)
+    calls = []
+    closures = {}
+    for b in f["blocks"]:
+        t = b["term"]
+        if b["cleanup"] or t["k"] != "call":
+            continue
+        name = (t["callee"].get("orig") or t["callee"].get("key") or "?")
+        calls.append(name)
+        for a in t["args"]:
+            tr = ex.operand(a)
+            if tr[0] == "agg" and tr[1] == "closure":
+                closures.setdefault(name.rsplit("::", 1)[-1], []).append(tr[2])
+    last = [c.rsplit("::", 1)[-1] for c in calls]
+    splits = [c for c in last if c in ("split", "split_whitespace", "split_ascii_whitespace", "split_terminator")]
+    ok = len(splits) == 1 and "collect" in last
+    ctx.ob(rid, "split-and-collect", ok, "" if ok else "from_space_sv does not split the string once and collect the tokens (calls: %s)" % last, "%s:%d" % (f["file"], f["line"]), sample={"calls": last})
+    DROPPING = {"filter", "filter_map", "take", "skip", "take_while", "skip_while", "step_by", "rev", "nth", "last", "dedup", "truncate", "pop", "remove", "retain", "chunks", "zip", "find", "position", "map_while", "splitn", "rsplitn", "split_once"}
+    bad = []
+    for c in sorted(set(last) & DROPPING):
+        if c == "filter":
+            # accepted form: the predicate only tests emptiness
+            harmless = True
+            for ck in closures.get("filter", []):
+                g = prog.fns.get(ck)
+                if g is None:
+                    harmless = False
+                    continue
+                gc = [(t["callee"].get("key") or "?").rsplit("::", 1)[-1] for t in (b["term"] for b in g["blocks"] if not b["cleanup"]) if t["k"] == "call"]
+                cmps = [s for b in g["blocks"] for s in b["stmts"] if s["rv"]["op"] == "bin"]
+                if set(gc) - {"is_empty"} or cmps:
+                    harmless = False
+            if harmless and closures.get("filter"):
+                continue
+        bad.append(c)
+    ctx.ob(rid, "no-token-dropped", not bad, "" if not bad else "from_space_sv applies %s to the token stream: tokens that do not pass (for example five-character promotions such as h7g8q under a length test) silently vanish from the decoded move list" % bad,
+           "%s:%d" % (f["file"], f["line"]))
+    # the `moves` fields are decoded through it: the deserialize_with shim calls from_space_sv
+    users = [k for k, g in prog.fns.items() if any(t["k"] == "call" and (t["callee"].get("key") or "").endswith("::from_space_sv") for t in (b["term"] for b in g["blocks"]))]
+    ok = len(users) >= 1
+    ctx.ob(rid, "moves-field-uses-it", ok, "" if ok else "no derived deserializer calls from_space_sv any more (the `moves` field lost its deserialize_with attribute?)", "%s:%d" % (f["file"], f["line"]), sample={"users": users[:3]})
+
+
+_run_before_r5 = run
+
+
+def run(ctx):
+    _run_before_r5(ctx)
+    r5_move_list(ctx)
